@@ -108,7 +108,8 @@ def q_from_axes(a1, a2):
 # alphabets
 # ------------------------------------------------------------------------------------------------
 # "tiny": axes rotated by 1e-3 rad about z (a small fibre misalignment: almost, but not, the global axes)
-AXES_3D = ["canonical", "inplane", "generic", "x2", "x0.5", "mixed", "swapped", "zup", "tiny"]
+# "aboutx": the frame turned about its own first axis, which stays e_x
+AXES_3D = ["canonical", "inplane", "generic", "x2", "x0.5", "mixed", "swapped", "zup", "tiny", "aboutx"]
 AXES_3D_THOROUGH = ["generic_b", "generic_c", "rot90z", "rot180z", "yz"]
 AXES_INPLANE = ["canonical", "inplane", "x2", "x0.5", "mixed", "swapped", "tiny"]
 AXES_INPLANE_THOROUGH = ["inplane_b", "rot90z", "rot180z"]
@@ -215,6 +216,8 @@ def axes_vectors(name, tag="0"):
         return ey.copy(), -ex
     if name == "rot180z":
         return -ex, -ey
+    if name == "aboutx":
+        return ex.copy(), np.array([0.0, np.cos(0.7), np.sin(0.7)])
     if name == "tiny":
         th = 1e-3
         return np.array([np.cos(th), np.sin(th), 0.0]), np.array([-np.sin(th), np.cos(th), 0.0])
@@ -408,7 +411,7 @@ def _law_cases(tier):
 
 PMAT_SHAPES = {"i": (), "e": (4,), "ep": (3, 2)}
 PMAT_SHAPES_THOROUGH = {"e1": (1,), "ep_dd": None, "ep_66": (6, 6)}  # ep_dd: Ne = nPg = dim
-PMAT_AXES = {3: ["canonical", "inplane", "generic", "x2", "x0.5", "mixed", "swapped", "zup", "tiny"],
+PMAT_AXES = {3: ["canonical", "inplane", "generic", "x2", "x0.5", "mixed", "swapped", "zup", "tiny", "aboutx"],
              2: ["canonical", "inplane", "x2", "x0.5", "mixed", "swapped", "tiny"]}
 
 
